@@ -162,4 +162,47 @@ theorem adopting_src_breaks_frame :
     simp at hr
     rcases hr with rfl | rfl <;> (intro a ha; cases ha; simp), by decide⟩
 
+/-! ### over whole histories -/
+
+/-- what happens to the class-map memory over time -/
+inductive CAct
+  | callerMap (content : AMap Felt Nat)        -- a caller (the poller's `fetchDeclaredClasses`) allocates the map it will pass in
+  | apply (u : Update) (target caller : CRef)  -- `computeUpdate` builds the affected entry's map
+  | build (refs : List CRef)                   -- a reader builds a state over a view (the accumulation loop)
+
+/-- the map values an action mentions exist when it runs -/
+def CAct.valid (m : CMem) : CAct → Prop
+  | .callerMap _ => True
+  | .apply _ t c => Valid m t ∧ Valid m c
+  | .build refs => ∀ r ∈ refs, Valid m r
+
+def cstep (m : CMem) : CAct → CMem
+  | .callerMap c => (calloc m c).1
+  | .apply u t c => (applyClassRef m u t c).1
+  | .build refs => (accumulate m refs).1
+
+def ValidHist : CMem → List CAct → Prop
+  | _, [] => True
+  | m, a :: rest => a.valid m ∧ ValidHist (cstep m a) rest
+
+theorem Unch.weaken {w w' : Nat} {m m' : CMem} (hw : w' ≤ w) (h : Unch w m m') : Unch w' m m' :=
+  ⟨h.1, fun a ha => h.2 a (by omega)⟩
+
+theorem cstep_frame (m : CMem) (a : CAct) (h : a.valid m) : Unch m.length m (cstep m a) := by
+  cases a with
+  | callerMap c => exact unch_append m.length m (Nat.le_refl _) c
+  | apply u t c => exact applyClassRef_frame m u h.1 h.2
+  | build refs => exact (accumulate_frame m refs h).1
+
+/-- **Once a class map exists it is never written again**, over any history of callers allocating maps,
+writer operations and readers building states, in any order and number -/
+theorem hist_frame (acts : List CAct) : ∀ (m : CMem), ValidHist m acts → Unch m.length m (acts.foldl cstep m) := by
+  induction acts with
+  | nil => intro m _; exact Unch.refl _ _
+  | cons a rest ih =>
+    intro m h
+    have h1 := cstep_frame m a h.1
+    have h2 := ih (cstep m a) h.2
+    exact h1.trans (h2.weaken h1.1)
+
 end Juno.C20.CAlias
